@@ -289,7 +289,7 @@ var pep440PostStrings = []string{
 	"r",
 }
 
-const lettersInPyPI = "abcdehiloprstvw" // Used by possibleVersionString.
+const lettersInPyPI = "abcdehiloprstvwABCDEHILOPRSTVW" // Used by possibleVersionString; PEP 440 is case-insensitive.
 
 // parsePre parses a prerelease, if present, and adds it to the extension,
 // returning the rest of the input.
